@@ -76,6 +76,19 @@ def gen_case(seed, tier="quick"):
     weights = {"set": rng.choice((1, 3, 5)), "iop": rng.choice((1, 3, 5)), "out": rng.choice((0, 1, 2)), "read": rng.choice((0, 1, 2))}
     bag = [k for k, w in weights.items() for _ in range(w)]
     last_switched = False
+    seen_vals = [C.lit_value(x) for x in start["coords"].values() if not (isinstance(x, dict) and x.get("$") in ("sym", "symnum"))]
+    if be == "obj" and rng.random() < 0.1:
+        # "same numbers, other system": the azimuthal pair (a, b) is stored first in one system, then - through two
+        # assignments - in the other, then a coordinate of the first system is assigned again (every step needs the partner)
+        names0 = C.names_of(tuple(start["sys"]))
+        a, b = (C.lit_value(start["coords"][k]) for k in list(start["coords"])[:2])
+        s1 = ("x", "y") if names0[0] == "x" else ("rho", "phi")
+        s2 = ("rho", "phi") if s1[0] == "x" else ("x", "y")
+        sp = lambda g: (rng.choice(C.SYN[g]) if (mom and g in C.SYN and rng.random() < 0.5) else g)  # noqa: E731
+        enc = lambda v: C.numkind(rng, v, kinds)  # noqa: E731
+        steps += [{"s": "set", "name": sp(s1[1]), "val": enc(b)}, {"s": "set", "name": sp(s2[0]), "val": enc(a)},
+                  {"s": "set", "name": sp(s2[1]), "val": enc(b)}, {"s": "set", "name": sp(s1[0]), "val": enc(C.value(rng, s1[0]))},
+                  {"s": "read", "name": s1[1]}]
     for i in range(nsteps):
         kind = rng.choice(bag)
         if kind == "set":
@@ -84,6 +97,9 @@ def gen_case(seed, tier="quick"):
                 g = rng.choice(allnames[dim + 1])  # a coordinate this dimension does not have
             nm = rng.choice(C.SYN[g]) if (mom and g in C.SYN and rng.random() < 0.6) else g
             v = C.value(rng, g, hazard=hz and rng.random() < 0.25)
+            if seen_vals and rng.random() < 0.25:
+                v = rng.choice(seen_vals)     # recycled numbers (the same value under another coordinate name)
+            seen_vals.append(v)
             if rng.random() < 0.15:
                 # legal but unusual: angles outside their principal range, negative radii / proper times
                 v = {"phi": round(rng.uniform(-9.5, 9.5), 3), "theta": round(rng.uniform(-4.0, 7.0), 3), "rho": -abs(v) if isinstance(v, float) else v,
@@ -206,6 +222,19 @@ def _bits(x):
     if isinstance(x, (int, numpy.integer)) and not isinstance(x, bool):
         return (type(x).__name__, int(x))
     return (type(x).__name__, repr(x))
+
+
+def _num(x):
+    """The *number* a stored coordinate denotes (int 3, 3.0 and numpy.float64(3) read back "exactly" the same)."""
+    import numpy
+
+    if isinstance(x, bool):
+        return ("bool", x)
+    if isinstance(x, (int, numpy.integer)):
+        return ("num", float(int(x)).hex()) if abs(int(x)) < 2 ** 53 else ("int", int(x))
+    if isinstance(x, (float, numpy.floating)):
+        return ("num", snapshot._fhex(x))
+    return _bits(x)
 
 
 def state_bits(v):
@@ -342,21 +371,21 @@ def run_case(case, vector):
                 viol.append(_viol("I5", "identity-or-class-changed", i, st, f"{vtype.__name__} -> {type(v).__name__}"))
             for (g, cn, els), (g0, cn0, els0) in zip(after, _unbits_groups(before)):
                 if g != gname:
-                    if (cn, tuple(_bits(e) for e in els)) != (cn0, els0):
+                    if (cn, tuple(_num(e) for e in els)) != (cn0, tuple(_renum(b) for b in els0)):
                         viol.append(_viol("I5", "other-group-changed", i, st, f"{g}: {cn0}{els0} -> {cn}{els}"))
                     continue
                 if _suffix(cn) != suffix:
                     viol.append(_viol("I5", "wrong-coordinate-type-stored", i, st, f"{name} stored as {cn}"))
                     continue
                 pos = POS.get(generic, 0)
-                if _bits(els[pos]) != _bits(val):
+                if _num(els[pos]) != _num(val):
                     viol.append(_viol("I5", "assigned-value-not-stored", i, st, f"{name}={val!r} stored {els[pos]!r}"))
                 if generic in PARTNER and partner_err is None:
-                    if _bits(els[1 - pos]) != _bits(partner_before):
+                    if _num(els[1 - pos]) != _num(partner_before):
                         viol.append(_viol("I5", "partner-changed", i, st, f"{PARTNER[generic]} was {partner_before!r} now {els[1 - pos]!r}"))
             try:
                 rb = getattr(v, name)
-                if _bits(rb) != _bits(val):
+                if _num(rb) != _num(val):
                     viol.append(_viol("I5", "readback-differs", i, st, f"{name}={val!r} reads {rb!r}"))
             except Exception as e:
                 viol.append(_viol("I5", "readback-raises", i, st, f"{type(e).__name__}: {e}"))
@@ -459,6 +488,16 @@ def run_case(case, vector):
     stats["nontrivial"] = bool(stats["raised"] or sum(stats["faults_fired"].values()) or stats["sys_switches"] or stats["steps"] >= 2)
     stats["extra"] = {"torn_checks": stats["torn_checks"], "sys_switches": stats["sys_switches"]}
     return {"viol": viol, "stats": stats}
+
+
+def _renum(b):
+    """_bits tuple -> _num tuple (for comparing a state recorded earlier with numbers read now)."""
+    t, v = b
+    if t in ("float", "float64", "float32", "SimFloat"):
+        return ("num", v)
+    if t in ("int", "int64", "int32") and isinstance(v, int):
+        return ("num", float(v).hex()) if abs(v) < 2 ** 53 else ("int", v)
+    return b
 
 
 def _fmt(bits):
